@@ -218,12 +218,17 @@ func rtRun(src, cfgs string, writers bool) string {
 		if err != nil {
 			return "FAIL:reparse-error:" + fmtErr(err) + tag
 		}
+		// both are reported: a printed text that is another program and is not a fix-point either
+		var kinds []string
 		if k := skCmds(cmds2); k != k0 {
-			return "FAIL:different-program" + tag
+			kinds = append(kinds, "different-program")
 		}
 		text2, _ := printAll(cfg, cmds2)
 		if text2 != text {
-			return "FAIL:not-idempotent" + tag + ":" + hx(text2)
+			kinds = append(kinds, "not-idempotent")
+		}
+		if len(kinds) != 0 {
+			return "FAIL:" + strings.Join(kinds, ",") + tag + ":" + hx(text2)
 		}
 		if writers && i == idx[0] {
 			for _, c := range cmds {
